@@ -82,6 +82,10 @@ func (c *CodecManager) GetCodec(codecType CodecType, msgType message.MessageType
 }
 
 func (c *CodecManager) Decode(codecType CodecType, in []byte) interface{} {
+	if len(in) < 2 {
+		log.Errorf("message body of %d bytes is too short to carry a type code", len(in))
+		return nil
+	}
 	r := byteio.BigEndianReader{Reader: bytes.NewReader(in)}
 	typeCode, _, _ := r.ReadInt16()
 	codec := c.GetCodec(codecType, message.MessageType(typeCode))
